@@ -1,212 +1,132 @@
 package main
 
-import "sort"
+import (
+	"sort"
+	"sync"
+)
 
-// Shrink minimises a failing scenario: it applies structural reductions one at
-// a time and keeps a candidate when stillFails says the same violation
-// persists. Every candidate is one deterministic execution in a fresh process.
+// Shrink minimises a failing scenario. Every reduction pass is a list of
+// positions (clients, requests, registration ops, middleware ids, script
+// actions, faults, sites, schedule entries, option flags); a candidate removes
+// or simplifies what is at one position. Candidates are evaluated, each as one
+// deterministic execution in a fresh process, in chunks of `par` at a time,
+// all built from the current scenario; the first successful one in position
+// order is adopted, so the result does not depend on timing. Positions are
+// visited from the highest to the lowest and every reduction only disturbs
+// positions at or above its own, so a pass continues below an adopted
+// candidate without re-enumerating.
 func Shrink(sc *Scenario, stillFails func(*Scenario) bool, budget int) *Scenario {
-	cur := sc.Clone()
-	cur.Expect = nil
-	tries := 0
-	try := func(c *Scenario) bool {
-		if tries >= budget {
-			return false
-		}
-		tries++
-		if stillFails(c) {
-			cur = c
-			return true
-		}
-		return false
-	}
-	for progress := true; progress && tries < budget; {
+	sh := &shrinker{cur: sc.Clone(), test: stillFails, budget: budget, par: 8}
+	sh.cur.Expect = nil
+	for progress := true; progress && sh.tries < sh.budget; {
 		progress = false
-		// 1. schedule tail (binary), then whole clients, then requests
-		for n := len(cur.Schedule); n > 0 && tries < budget; {
-			c := cur.Clone()
-			c.Schedule = c.Schedule[:n/2]
-			if try(c) {
+		// schedule tail, binary
+		for len(sh.cur.Schedule) > 0 && sh.tries < sh.budget {
+			c := sh.cur.Clone()
+			c.Schedule = c.Schedule[:len(c.Schedule)/2]
+			sh.tries++
+			if !sh.test(c) {
+				break
+			}
+			sh.cur, progress = c, true
+		}
+		for _, p := range shrinkPasses {
+			if sh.pass(p) {
 				progress = true
-				n = len(cur.Schedule)
-			} else {
+			}
+		}
+	}
+	return sh.cur
+}
+
+type shrinker struct {
+	cur    *Scenario
+	test   func(*Scenario) bool
+	budget int
+	tries  int
+	par    int
+}
+
+// a pass: count positions in a scenario; build the candidate for one position (nil: not applicable)
+type shrinkPass struct {
+	name  string
+	count func(*Scenario) int
+	build func(*Scenario, int) *Scenario
+}
+
+func (sh *shrinker) pass(p shrinkPass) bool {
+	progress := false
+	i := p.count(sh.cur) - 1
+	for i >= 0 && sh.tries < sh.budget {
+		var idx []int
+		var cands []*Scenario
+		j := i
+		for ; j >= 0 && len(cands) < sh.par; j-- {
+			if c := p.build(sh.cur, j); c != nil {
+				idx = append(idx, j)
+				cands = append(cands, c)
+			}
+		}
+		if len(cands) == 0 {
+			break
+		}
+		res := make([]bool, len(cands))
+		var wg sync.WaitGroup
+		for k := range cands {
+			wg.Add(1)
+			go func(k int) {
+				defer wg.Done()
+				res[k] = sh.test(cands[k])
+			}(k)
+		}
+		wg.Wait()
+		sh.tries += len(cands)
+		adopted := -1
+		for k := range cands {
+			if res[k] {
+				adopted = k
 				break
 			}
 		}
-		for i := len(cur.Clients) - 1; i >= 0 && len(cur.Clients) > 1; i-- {
-			if try(dropClient(cur, i)) {
-				progress = true
-			}
-		}
-		for i := len(cur.Clients) - 1; i >= 0; i-- {
-			for j := len(cur.Clients[i].Reqs) - 1; j >= 0; j-- {
-				if len(cur.Clients[i].Reqs) <= 1 && len(cur.Clients[i].Ops) == 0 {
-					break
-				}
-				c := cur.Clone()
-				c.Clients[i].Reqs = append(c.Clients[i].Reqs[:j], c.Clients[i].Reqs[j+1:]...)
-				if try(c) {
-					progress = true
-				}
-			}
-			for j := len(cur.Clients[i].Ops) - 1; j >= 0; j-- {
-				c := cur.Clone()
-				c.Clients[i].Ops = append(c.Clients[i].Ops[:j], c.Clients[i].Ops[j+1:]...)
-				if try(c) {
-					progress = true
-				}
-			}
-		}
-		// 2. faults
-		for i := len(cur.CacheFaults) - 1; i >= 0; i-- {
-			c := cur.Clone()
-			c.CacheFaults = append(c.CacheFaults[:i], c.CacheFaults[i+1:]...)
-			if try(c) {
-				progress = true
-			}
-		}
-		for i := range cur.Clients {
-			for j := range cur.Clients[i].Reqs {
-				if len(cur.Clients[i].Reqs[j].WFaults) > 0 {
-					c := cur.Clone()
-					c.Clients[i].Reqs[j].WFaults = nil
-					if try(c) {
-						progress = true
-					}
-				}
-				if len(cur.Clients[i].Reqs[j].Over) > 0 {
-					c := cur.Clone()
-					c.Clients[i].Reqs[j].Over = nil
-					if try(c) {
-						progress = true
-					}
-				}
-			}
-		}
-		// 3. registration program
-		for _, path := range opPaths(cur.Program, nil) {
-			c := cur.Clone()
-			if removeOp(&c.Program, path) && try(c) {
-				progress = true
-				break // paths are stale after a removal; next round continues
-			}
-		}
-		for _, path := range opPaths(cur.Program, nil) {
-			op := opAt(cur.Program, path)
-			if op == nil {
-				continue
-			}
-			for _, field := range []int{0, 1} {
-				list := op.MW
-				if field == 1 {
-					list = op.LaterUse
-				}
-				if op.Op == "notfound" || op.Op == "notallowed" {
-					if len(list) <= 1 {
-						continue
-					}
-				}
-				for k := len(list) - 1; k >= 0; k-- {
-					c := cur.Clone()
-					o := opAt(c.Program, path)
-					if field == 0 {
-						o.MW = append(o.MW[:k], o.MW[k+1:]...)
-					} else {
-						o.LaterUse = append(o.LaterUse[:k], o.LaterUse[k+1:]...)
-					}
-					if try(c) {
-						progress = true
-					}
-				}
-			}
-		}
-		// 4. handler scripts
-		ids := make([]string, 0, len(cur.Handlers))
-		for id := range cur.Handlers {
-			ids = append(ids, id)
-		}
-		sort.Strings(ids)
-		for _, id := range ids {
-			c := cur.Clone()
-			delete(c.Handlers, id)
-			if try(c) {
-				progress = true
-				continue
-			}
-			for k := len(cur.Handlers[id]) - 1; k >= 0; k-- {
-				c := cur.Clone()
-				s := c.Handlers[id]
-				c.Handlers[id] = append(s[:k:k], s[k+1:]...)
-				if try(c) {
-					progress = true
-				}
-			}
-		}
-		// 5. options, seams
-		optTries := []func(*Scenario) bool{
-			func(c *Scenario) bool { ok := c.Options.StrictSlash; c.Options.StrictSlash = false; return ok },
-			func(c *Scenario) bool { ok := c.Options.NotAllowed; c.Options.NotAllowed = false; return ok },
-			func(c *Scenario) bool { ok := c.Options.Fallback; c.Options.Fallback = false; return ok },
-			func(c *Scenario) bool { ok := c.Options.Caching; c.Options.Caching = false; c.Options.Capacity = 0; return ok },
-			func(c *Scenario) bool { ok := c.Options.OnError != ""; c.Options.OnError = ""; return ok },
-			func(c *Scenario) bool { ok := c.OrderSeed != 0; c.OrderSeed = 0; return ok },
-			func(c *Scenario) bool { ok := c.Pool.DropN != 0; c.Pool.DropN = 0; return ok },
-			func(c *Scenario) bool { ok := c.Pool.Policy != "lifo"; c.Pool.Policy = "lifo"; return ok },
-			func(c *Scenario) bool {
-				ok := c.Options.Caching && c.Options.Capacity > 1
-				c.Options.Capacity = 1
-				return ok
-			},
-		}
-		for _, f := range optTries {
-			c := cur.Clone()
-			if f(c) && try(c) {
-				progress = true
-			}
-		}
-		for i := len(cur.Sites) - 1; i >= 0; i-- {
-			c := cur.Clone()
-			c.Sites = append(c.Sites[:i], c.Sites[i+1:]...)
-			if try(c) {
-				progress = true
-			}
-		}
-		// 6. schedule entries one by one (removes preemptions)
-		for i := len(cur.Schedule) - 1; i >= 0 && tries < budget; i-- {
-			if i >= len(cur.Schedule) {
-				continue
-			}
-			c := cur.Clone()
-			c.Schedule = append(c.Schedule[:i], c.Schedule[i+1:]...)
-			if try(c) {
-				progress = true
-			}
+		if adopted >= 0 {
+			sh.cur = cands[adopted]
+			progress = true
+			i = idx[adopted] - 1
+		} else {
+			i = j
 		}
 	}
-	return cur
+	return progress
 }
 
-func dropClient(sc *Scenario, i int) *Scenario {
-	c := sc.Clone()
-	c.Clients = append(c.Clients[:i], c.Clients[i+1:]...)
-	var ns []int
-	for _, t := range c.Schedule {
-		switch {
-		case t == i:
-		case t > i:
-			ns = append(ns, t-1)
-		default:
-			ns = append(ns, t)
+// ---- position enumerations ----
+
+type reqPos struct{ c, r int }
+
+func reqPositions(sc *Scenario) []reqPos {
+	var out []reqPos
+	for c := range sc.Clients {
+		for r := range sc.Clients[c].Reqs {
+			out = append(out, reqPos{c, r})
 		}
 	}
-	c.Schedule = ns
-	return c
+	return out
 }
 
-// opPaths lists index paths of all ops, innermost last (children before later siblings are fine).
+func copPositions(sc *Scenario) []reqPos {
+	var out []reqPos
+	for c := range sc.Clients {
+		for r := range sc.Clients[c].Ops {
+			out = append(out, reqPos{c, r})
+		}
+	}
+	return out
+}
+
+// opPaths lists the index paths of all registration ops in pre-order.
 func opPaths(ops []RegOp, prefix []int) [][]int {
 	var out [][]int
-	for i := len(ops) - 1; i >= 0; i-- {
+	for i := range ops {
 		p := append(append([]int{}, prefix...), i)
 		out = append(out, p)
 		if len(ops[i].Body) > 0 {
@@ -242,4 +162,213 @@ func removeOp(ops *[]RegOp, path []int) bool {
 		return false
 	}
 	return removeOp(&(*ops)[path[0]].Body, path[1:])
+}
+
+type mwPos struct {
+	path  []int
+	field int // 0: MW, 1: LaterUse
+	k     int
+}
+
+func mwPositions(sc *Scenario) []mwPos {
+	var out []mwPos
+	for _, p := range opPaths(sc.Program, nil) {
+		op := opAt(sc.Program, p)
+		for k := range op.MW {
+			out = append(out, mwPos{p, 0, k})
+		}
+		for k := range op.LaterUse {
+			out = append(out, mwPos{p, 1, k})
+		}
+	}
+	return out
+}
+
+type actPos struct {
+	id string
+	k  int // -1: the whole script (back to the default)
+}
+
+func actPositions(sc *Scenario) []actPos {
+	ids := make([]string, 0, len(sc.Handlers))
+	for id := range sc.Handlers {
+		ids = append(ids, id)
+	}
+	sort.Strings(ids)
+	var out []actPos
+	for _, id := range ids {
+		out = append(out, actPos{id, -1}) // before its actions: removing the script only disturbs higher positions
+		for k := range sc.Handlers[id] {
+			out = append(out, actPos{id, k})
+		}
+	}
+	return out
+}
+
+type overPos struct {
+	c, r int
+	id   string
+	k    int
+}
+
+func overPositions(sc *Scenario) []overPos {
+	var out []overPos
+	for c := range sc.Clients {
+		for r := range sc.Clients[c].Reqs {
+			ov := sc.Clients[c].Reqs[r].Over
+			ids := make([]string, 0, len(ov))
+			for id := range ov {
+				ids = append(ids, id)
+			}
+			sort.Strings(ids)
+			for _, id := range ids {
+				out = append(out, overPos{c, r, id, -1})
+				for k := range ov[id] {
+					out = append(out, overPos{c, r, id, k})
+				}
+			}
+		}
+	}
+	return out
+}
+
+var optionReductions = []func(*Scenario) bool{
+	func(c *Scenario) bool { ok := c.Options.StrictSlash; c.Options.StrictSlash = false; return ok },
+	func(c *Scenario) bool { ok := c.Options.NotAllowed; c.Options.NotAllowed = false; return ok },
+	func(c *Scenario) bool { ok := c.Options.Fallback; c.Options.Fallback = false; return ok },
+	func(c *Scenario) bool {
+		ok := c.Options.Caching
+		c.Options.Caching, c.Options.Capacity = false, 0
+		return ok
+	},
+	func(c *Scenario) bool { ok := c.Options.OnError != ""; c.Options.OnError = ""; return ok },
+	func(c *Scenario) bool { ok := c.OrderSeed != 0; c.OrderSeed = 0; return ok },
+	func(c *Scenario) bool { ok := c.Pool.DropN != 0; c.Pool.DropN = 0; return ok },
+	func(c *Scenario) bool { ok := c.Pool.Policy != "lifo"; c.Pool.Policy = "lifo"; return ok },
+	func(c *Scenario) bool {
+		ok := c.Options.Caching && c.Options.Capacity > 1
+		c.Options.Capacity = 1
+		return ok
+	},
+	func(c *Scenario) bool { ok := c.CacheCap > 1; c.CacheCap = 1; return ok },
+}
+
+var shrinkPasses = []shrinkPass{
+	{"client", func(s *Scenario) int { return len(s.Clients) }, func(s *Scenario, i int) *Scenario {
+		if len(s.Clients) <= 1 {
+			return nil
+		}
+		return dropClient(s, i)
+	}},
+	{"request", func(s *Scenario) int { return len(reqPositions(s)) }, func(s *Scenario, i int) *Scenario {
+		p := reqPositions(s)[i]
+		if len(s.Clients[p.c].Reqs) <= 1 {
+			return nil
+		}
+		c := s.Clone()
+		c.Clients[p.c].Reqs = append(c.Clients[p.c].Reqs[:p.r], c.Clients[p.c].Reqs[p.r+1:]...)
+		return c
+	}},
+	{"cacheop", func(s *Scenario) int { return len(copPositions(s)) }, func(s *Scenario, i int) *Scenario {
+		p := copPositions(s)[i]
+		c := s.Clone()
+		c.Clients[p.c].Ops = append(c.Clients[p.c].Ops[:p.r], c.Clients[p.c].Ops[p.r+1:]...)
+		return c
+	}},
+	{"cachefault", func(s *Scenario) int { return len(s.CacheFaults) }, func(s *Scenario, i int) *Scenario {
+		c := s.Clone()
+		c.CacheFaults = append(c.CacheFaults[:i], c.CacheFaults[i+1:]...)
+		return c
+	}},
+	{"writerfaults", func(s *Scenario) int { return len(reqPositions(s)) }, func(s *Scenario, i int) *Scenario {
+		p := reqPositions(s)[i]
+		if len(s.Clients[p.c].Reqs[p.r].WFaults) == 0 {
+			return nil
+		}
+		c := s.Clone()
+		f := c.Clients[p.c].Reqs[p.r].WFaults
+		c.Clients[p.c].Reqs[p.r].WFaults = f[:len(f)-1]
+		return c
+	}},
+	{"override", func(s *Scenario) int { return len(overPositions(s)) }, func(s *Scenario, i int) *Scenario {
+		p := overPositions(s)[i]
+		c := s.Clone()
+		ov := c.Clients[p.c].Reqs[p.r].Over
+		if p.k < 0 {
+			delete(ov, p.id)
+			if len(ov) == 0 {
+				c.Clients[p.c].Reqs[p.r].Over = nil
+			}
+		} else {
+			a := ov[p.id]
+			ov[p.id] = append(a[:p.k:p.k], a[p.k+1:]...)
+		}
+		return c
+	}},
+	{"regop", func(s *Scenario) int { return len(opPaths(s.Program, nil)) }, func(s *Scenario, i int) *Scenario {
+		c := s.Clone()
+		if !removeOp(&c.Program, opPaths(s.Program, nil)[i]) {
+			return nil
+		}
+		return c
+	}},
+	{"middleware", func(s *Scenario) int { return len(mwPositions(s)) }, func(s *Scenario, i int) *Scenario {
+		p := mwPositions(s)[i]
+		c := s.Clone()
+		o := opAt(c.Program, p.path)
+		if (o.Op == "notfound" || o.Op == "notallowed") && len(o.MW) <= 1 {
+			return nil
+		}
+		if p.field == 0 {
+			o.MW = append(o.MW[:p.k], o.MW[p.k+1:]...)
+		} else {
+			o.LaterUse = append(o.LaterUse[:p.k], o.LaterUse[p.k+1:]...)
+		}
+		return c
+	}},
+	{"script", func(s *Scenario) int { return len(actPositions(s)) }, func(s *Scenario, i int) *Scenario {
+		p := actPositions(s)[i]
+		c := s.Clone()
+		if p.k < 0 {
+			delete(c.Handlers, p.id)
+		} else {
+			a := c.Handlers[p.id]
+			c.Handlers[p.id] = append(a[:p.k:p.k], a[p.k+1:]...)
+		}
+		return c
+	}},
+	{"option", func(s *Scenario) int { return len(optionReductions) }, func(s *Scenario, i int) *Scenario {
+		c := s.Clone()
+		if !optionReductions[i](c) {
+			return nil
+		}
+		return c
+	}},
+	{"site", func(s *Scenario) int { return len(s.Sites) }, func(s *Scenario, i int) *Scenario {
+		c := s.Clone()
+		c.Sites = append(c.Sites[:i], c.Sites[i+1:]...)
+		return c
+	}},
+	{"schedule", func(s *Scenario) int { return len(s.Schedule) }, func(s *Scenario, i int) *Scenario {
+		c := s.Clone()
+		c.Schedule = append(c.Schedule[:i], c.Schedule[i+1:]...)
+		return c
+	}},
+}
+
+func dropClient(sc *Scenario, i int) *Scenario {
+	c := sc.Clone()
+	c.Clients = append(c.Clients[:i], c.Clients[i+1:]...)
+	var ns []int
+	for _, t := range c.Schedule {
+		switch {
+		case t == i:
+		case t > i:
+			ns = append(ns, t-1)
+		default:
+			ns = append(ns, t)
+		}
+	}
+	c.Schedule = ns
+	return c
 }
